@@ -157,17 +157,21 @@ def check_static(case, prebuilt=None):
   labels = {'kind:' + shape['kind'], 'lists:' + ('allow' if allow else 'deny' if deny else 'none')}
   if shape.get('decorated'):
     labels.add('decorated-function')
+  if shape.get('far_ctor'):
+    labels.add('class-with-other-constructor-in-a-base')
   full = built.selector
   parts = full.split('.')
   is_method = shape['kind'] == 'method'
   spell = {'full': full, 'short': '.'.join(parts[1:]), 'bare': parts[-1],
            'class_dot': '.'.join(parts[-2:]) if is_method else parts[-1],
+           # the name a method had before its class was registered: module.method
+           'mod_meth': '.'.join(parts[:-2] + parts[-1:]) if is_method else full,
            'unknown': 'nosuch_' + parts[-1], 'unknown_mod': 'nosuch.' + parts[-1]}
 
   def accept(param, sp):
     if sp.startswith('unknown'):
       return False
-    if is_method and sp == 'bare':
+    if is_method and sp in ('bare', 'mod_meth'):
       return False
     if param not in named and not shape['varkw']:
       return False
@@ -295,7 +299,8 @@ def _param_classes(shape):
   named = G.named_params(shape)
   # 'args' / 'kw' are the names of the variadic parameters in the generated signatures: they are
   # not parameters a binding can name (unless **kw accepts any name)
-  return named + ['zz_unknown'] + G.EXTRA[:1] + ['args', 'kw']
+  return (named + ['zz_unknown'] + G.EXTRA[:1] + ['args', 'kw'] +
+          (['zz_base', 'zz_base'] if shape.get('far_ctor') else []))
 
 
 @st.composite
@@ -323,6 +328,8 @@ def _static_case(draw):
     # the function is wrapped by 1-2 functools.wraps decorators before it is registered: its
     # configurable parameters are still those of the real signature
     shape['decorated'] = draw(st.integers(1, 2))
+  if shape['kind'] in ('class_init', 'class_new') and draw(st.integers(0, 2)) == 0:
+    shape['far_ctor'] = True
   named = G.named_params(shape)
   lists = draw(st.sampled_from(['none', 'allow', 'deny']))
   pool = named + (G.EXTRA if shape['varkw'] else [])
@@ -335,7 +342,7 @@ def _static_case(draw):
     prior.append([draw(st.sampled_from(SCOPES[:4])), draw(st.sampled_from(params)), 'P%d' % i])
   attempts = []
   for i in range(draw(st.integers(1, 5))):
-    sp = draw(st.sampled_from(['full', 'full', 'short', 'bare', 'class_dot', 'unknown',
+    sp = draw(st.sampled_from(['full', 'full', 'short', 'bare', 'class_dot', 'mod_meth', 'unknown',
                                'unknown_mod']))
     # whether a binding is accepted never depends on the value: falsy values included
     attempts.append([draw(st.sampled_from(APIS)), sp, draw(st.sampled_from(SCOPES)),
@@ -382,7 +389,7 @@ def sweep(tier):
           if lists:
             shape[lists[0]] = lists[1]
           for api in APIS:
-            for sp in ('full', 'bare', 'unknown'):
+            for sp in ('full', 'bare', 'mod_meth', 'unknown'):
               for param in ('v', 'e', 'w', 'zz_unknown', 'x', 'args'):
                 cases.append({'shape': shape, 'prior': [['', 't', 'P0'], ['s', 'e', 'P1']],
                               'attempts': [[api, sp, 's', param, 'A0']]})
